@@ -244,7 +244,13 @@ class LoggedModel:
                 logp = -numpy.inf
         if logp == 0.0 and self.kind == 'slope':
             logp = -math.floor(abs(float(kw[self.params[0]])) * 4) / 8.0
-        if self.int_outputs:
+        if self.int_outputs == 'float32':
+            # single-precision values where they are exact (same numbers, another number type)
+            if float(numpy.float32(logl)) == logl:
+                logl = numpy.float32(logl)
+            if logp != -numpy.inf and float(numpy.float32(logp)) == logp:
+                logp = numpy.float32(logp)
+        elif self.int_outputs:
             if logl == math.floor(logl) and abs(logl) < 2 ** 50:
                 logl = int(logl)
             if logp != -numpy.inf and logp == math.floor(logp):
